@@ -302,6 +302,12 @@ def replay(cand):
         return {"reproduced": True, "key": "hist-counts:" + mode,
                 "what": "%s: hist %r, definition gives %r" % (call, h.tolist(), want_h)}
     for k in range(nbin):
+        # the documented access pattern is `if rev[k] != rev[k+1]: w = rev[rev[k]:rev[k+1]]`,
+        # so the offsets themselves must be consistent with the counts
+        if int(rev[k + 1]) - int(rev[k]) != int(h[k]) or not (nbin + 1 <= rev[k] <= rev[k + 1] <= rev.size):
+            return {"reproduced": True, "key": "rev-offsets:" + mode,
+                    "what": "%s: offsets rev[%d],rev[%d] = %d,%d do not delimit the %d data of bin %d (rev %r)"
+                            % (call, k, k + 1, rev[k], rev[k + 1], h[k], k, rev.tolist())}
         sl = rev[rev[k]:rev[k + 1]].tolist()
         if sl != members[k]:
             return {"reproduced": True, "key": "rev-slice:" + mode,
